@@ -101,6 +101,7 @@ def _worker_chunk(args):
     pid, base, tier, idxs, keep_digests = args
     faulthandler.enable()
     mod = load_prop(pid)
+    reach = _reach_start(pid)
     agg = {'n': 0, 'nontrivial': 0, 'digests': [], 'probes': {}, 'faults': {},
            'states': set(), 'steps': 0, 'sim_s': 0.0, 'inconclusive': 0,
            'violations': [], 'harness_errors': [], 'samples': [],
@@ -138,7 +139,77 @@ def _worker_chunk(args):
                                    'summary': r.get('summary')})
     agg['states'] = list(agg['states'])
     agg['wall'] = PERF() - t0
+    agg['reach'] = sorted(reach) if reach is not None else []
     return agg
+
+
+_REACH = {'set': None, 'files': None}
+
+
+def anchored_files(pid):
+    try:
+        with open(os.path.join(VERIF, 'properties.jsonl')) as f:
+            for line in f:
+                p = json.loads(line)
+                if p['id'] == pid:
+                    return [x for x in p['anchors']['files']
+                            if x.endswith('.py')]
+    except Exception:
+        pass
+    return []
+
+
+def _reach_start(pid):
+    """line reach over the files the property is anchored in, via
+    sys.monitoring (each location is disabled after its first hit, so the
+    cost is paid once per line per worker)"""
+    if _REACH['set'] is not None:
+        return _REACH['set']
+    mon = getattr(sys, 'monitoring', None)
+    if mon is None or os.environ.get('VERIF_REACH') == '0':
+        return None
+    files = tuple('/' + f for f in anchored_files(pid))
+    hit = set()
+    _REACH['set'] = hit
+    tool = 3
+
+    def on_line(code, line):
+        fn = code.co_filename
+        if fn.endswith(files):
+            i = fn.rfind('/slimta/')
+            hit.add((fn[i + 1:], line))
+        return mon.DISABLE
+    try:
+        mon.use_tool_id(tool, 'verif-reach')
+        mon.register_callback(tool, mon.events.LINE, on_line)
+        mon.set_events(tool, mon.events.LINE)
+    except Exception:
+        return None
+    return hit
+
+
+def executable_lines(repo, relfiles):
+    out = {}
+    for rf in relfiles:
+        path = os.path.join(repo, rf)
+        try:
+            src = open(path).read()
+            top = compile(src, path, 'exec')
+        except Exception:
+            continue
+        lines = set()
+        stack = [top]
+        while stack:
+            c = stack.pop()
+            for _, _, ln in c.co_lines():
+                if ln:
+                    lines.add(ln)
+            for k in c.co_consts:
+                if hasattr(k, 'co_lines'):
+                    stack.append(k)
+        # module-level lines run at import, before monitoring starts
+        out[rf] = lines
+    return out
 
 
 def _still_violates(mod, scn, clause_sig):
@@ -251,6 +322,29 @@ def check_fixed_witnesses(mod, pid):
     return code, regressed
 
 
+def _reach_report(pid, hit):
+    repo = os.environ.get('VERIF_REPO') or '/repo'
+    files = anchored_files(pid)
+    ex = executable_lines(repo, files)
+    hit = hit or set()
+    rep = {}
+    tot_h = tot_e = 0
+    for rf, lines in ex.items():
+        # count only lines inside functions (def bodies): lines that can run
+        # after import
+        h = set(ln for f, ln in hit if f == rf)
+        body = set(lines)
+        rep[rf] = {'lines_reached': len(h & body), 'executable_lines': len(body)}
+        tot_h += len(h & body)
+        tot_e += len(body)
+    rep['total'] = {'lines_reached': tot_h, 'executable_lines': tot_e,
+                    'note': 'executable_lines includes import-time lines '
+                            '(class/def/import statements), which run before '
+                            'monitoring starts and are never counted as '
+                            'reached'}
+    return rep
+
+
 def main(argv=None):
     ap = argparse.ArgumentParser()
     ap.add_argument('prop')
@@ -319,6 +413,8 @@ def main(argv=None):
                 if len(total['samples']) < 3:
                     total['samples'].extend(a['samples'])
                 total['cpu'] += a['wall']
+                total.setdefault('reach', set()).update(
+                    tuple(x) for x in a.get('reach') or ())
     except BrokenProcessPool as e:
         print('HARNESS-ERROR: worker process died: %s' % e)
         return 2
@@ -445,6 +541,7 @@ def main(argv=None):
                 'probes_at_zero': [p for p in getattr(mod, 'PROBES', ())
                                    if not total['probes'].get(p)],
                 'components': mod.COMPONENTS,
+                'anchored_line_reach': _reach_report(pid, total.get('reach')),
                 'workers': workers,
                 'known_findings': known_lines,
                 'violation_signatures': reported + regressed,
